@@ -307,6 +307,87 @@ func ryIntern(w *World) {
 	} else {
 		w.undecided("maxInlined", token.NoPos, "constant maxInlined not found")
 	}
+	// lossless reverse lookup: the encoder indexes the reverse table with the input byte itself and
+	// the table has an entry for every byte value. An index that is masked, shifted or otherwise
+	// computed from the byte maps several bytes to one table entry: a byte >= 0x80 would be encoded
+	// as the ASCII character sharing its low bits, so two different strings get the same inline ID.
+	if outl0 := w.fn(rel, "encodeOutlined"); outl0 != nil {
+		nIx := 0
+		ast.Inspect(outl0.Decl.Body, func(x ast.Node) bool {
+			ix, ok := x.(*ast.IndexExpr)
+			if !ok {
+				return true
+			}
+			id, ok := ast.Unparen(ix.X).(*ast.Ident)
+			if !ok || id.Name != "byteToChar6" {
+				return true
+			}
+			nIx++
+			// index must be a plain element of the input (possibly converted), without arithmetic
+			e := ast.Unparen(ix.Index)
+			for {
+				c, ok := e.(*ast.CallExpr)
+				if !ok || len(c.Args) != 1 {
+					break
+				}
+				if tv, ok := info.Types[c.Fun]; !ok || !tv.IsType() {
+					break
+				}
+				e = ast.Unparen(c.Args[0])
+			}
+			plain := false
+			if in, ok := e.(*ast.IndexExpr); ok {
+				if t := info.TypeOf(in.X); t != nil {
+					if bt, ok := t.Underlying().(*types.Basic); ok && bt.Info()&types.IsString != 0 {
+						plain = true
+					}
+					if sl, ok := t.Underlying().(*types.Slice); ok && types.Identical(sl.Elem(), types.Typ[types.Byte]) {
+						plain = true
+					}
+				}
+			}
+			// table size: array length or make(…, N)
+			size := int64(-1)
+			if tt := info.TypeOf(ix.X); tt != nil {
+				if arr, ok := tt.Underlying().(*types.Array); ok {
+					size = arr.Len()
+				}
+			}
+			if size < 0 {
+				for _, f := range p.Syntax {
+					ast.Inspect(f, func(y ast.Node) bool {
+						vs, ok := y.(*ast.ValueSpec)
+						if !ok {
+							return true
+						}
+						for i, nm := range vs.Names {
+							if nm.Name == "byteToChar6" && i < len(vs.Values) {
+								ast.Inspect(vs.Values[i], func(z ast.Node) bool {
+									if c, ok := z.(*ast.CallExpr); ok && isBuiltinCall(info, c, "make") && len(c.Args) >= 2 {
+										if tv, ok := info.Types[c.Args[1]]; ok && tv.Value != nil {
+											size, _ = constant.Int64Val(tv.Value)
+										}
+									}
+									return true
+								})
+							}
+						}
+						return true
+					})
+				}
+			}
+			switch {
+			case plain && size >= 256:
+				w.ok("reverse-lookup|lossless", ix.Pos(), fmt.Sprintf("the reverse table (%d entries) is indexed with the input byte itself", size))
+			case !plain:
+				w.violation("reverse-lookup|lossless", ix.Pos(), "the reverse table is indexed with "+types.ExprString(ix.Index)+", not with the input byte itself: distinct bytes share an entry, so the inline encoding is not one-to-one (a non-ASCII byte is encoded as the ASCII character with the same low bits)")
+			default:
+				w.violation("reverse-lookup|lossless", ix.Pos(), fmt.Sprintf("the reverse table has %d entries but is indexed with a byte (0..255)", size))
+			}
+			return true
+		})
+		w.floor("reverse-table lookups in encodeOutlined", nIx, 1)
+	}
 	// encodeChar6 guards
 	enc := w.fn(rel, "encodeChar6")
 	outl := w.fn(rel, "encodeOutlined")
